@@ -227,6 +227,8 @@ def register(reg):
                 ("starts_unconnected", ("C10", "C05"), z3.And(F(c, s, "SK._connection") == 0, z3.Not(F(c, s, "SK._connect_failed")))),
             ]
 
+    reg.watch_reads = set(getattr(reg, "watch_reads", set())) | {"SK._connect_failed"}
+
     def rely(it, st, old):
         eng = it.eng
         s = getattr(it.ctx, "self", None)
@@ -235,13 +237,17 @@ def register(reg):
         lid = lock_id(eng.heap_read(st, s, "SK._connect_lock"))
         o = eng.old_arr(old, "SK._connection", IntS)
         n = eng.heap_arr(st, "SK._connection", IntS)
+        of = eng.old_arr(old, "SK._connect_failed", z3.BoolSort())
+        nf = eng.heap_arr(st, "SK._connect_failed", z3.BoolSort())
+        # _connect_failed is sticky, and set only while the connection is unconnected (guarantees:
+        # socks_connect_failed_is_only_ever_set / _set_only_while_unconnected) - by any flow that fails or is
+        # cancelled there, also while this flow holds the lock and is connecting
+        eng.assume(st, z3.Implies(z3.Select(of, s.t), z3.Select(nf, s.t)))
+        eng.assume(st, z3.Implies(z3.Select(n, s.t) != 0, z3.Not(z3.Select(nf, s.t))))
         if lid in st.held:
-            # both fields are only written by the holder of the connect lock (guarantee:
-            # socks_state_written_under_connect_lock), so they are stable across this flow's awaits
+            # _connection is only written by the holder of the connect lock (guarantee:
+            # socks_connection_written_under_connect_lock), so it is stable across this flow's awaits
             eng.assume(st, z3.Select(n, s.t) == z3.Select(o, s.t))
-            of = eng.old_arr(old, "SK._connect_failed", z3.BoolSort())
-            nf = eng.heap_arr(st, "SK._connect_failed", z3.BoolSort())
-            eng.assume(st, z3.Select(nf, s.t) == z3.Select(of, s.t))
         else:
             eng.assume(st, z3.Implies(z3.Select(o, s.t) != 0, z3.Select(n, s.t) == z3.Select(o, s.t)))
 
@@ -258,9 +264,17 @@ def register(reg):
 
         def on_field_write(self, c, obj, key, v, node):
             lid = lock_id(c.new(c.self, "SK._connect_lock"))
-            if key in ("SK._connection", "SK._connect_failed"):
-                return [("socks_state_written_under_connect_lock", ("C05", "C08", "C04"), lid in c.st.held)]
+            if key == "SK._connection":
+                return [("socks_connection_written_under_connect_lock", ("C05", "C08", "C04"), lid in c.st.held),
+                        ("socks_connection_set_only_on_a_connection_not_marked_failed", ("C04", "C06", "C05"), z3.Not(F(c, c.self, "SK._connect_failed")))]
+            if key == "SK._connect_failed":
+                return [("socks_connect_failed_is_only_ever_set", ("C05", "C06", "C04"), c.eng.z_bool(c.eng.truthy(c.st, v))),
+                        ("socks_connect_failed_set_only_while_unconnected", ("C05", "C06", "C04"), F(c, c.self, "SK._connection") == 0)]
             return []
+
+        def setup(self, c):
+            s = c.self
+            c.eng.assume(c.st, z3.Implies(F(c, s, "SK._connection") != 0, z3.Not(F(c, s, "SK._connect_failed"))))
 
         def callsite(self, c, ev):
             s = c.self
@@ -277,8 +291,12 @@ def register(reg):
                 out += [
                     ("socks_tcp_goes_to_the_proxy", ("C10", "C11"), z3.And(e.coerce(st, d["host"], "str").t == decode_ascii(F(c, po, "Origin.host")), e.coerce(st, d["port"], "int").t == F(c, po, "Origin.port"))),
                     ("socks_tcp_connect_timeout", ("C16",), d["timeout"].t == timeout_of(ext, "connect")),
-                    # same hazard as HTTPConnection: the pool drops an unconnected connection marked failed
-                    ("never_establishes_a_connection_already_marked_failed", ("C06", "C04", "C05"), z3.Not(F(c, s, "SK._connect_failed"))),
+                    # same hazard as HTTPConnection: the pool drops an unconnected connection marked failed.  A cancelled
+                    # waiter may still set the flag while the trace callback of connect_tcp is awaited, so the exact
+                    # obligation is at the other end (socks_connection_set_only_on_a_connection_not_marked_failed +
+                    # the stream is closed when the flow gives up); here: the flag was consulted under the lock first
+                    ("never_establishes_a_connection_already_marked_failed", ("C06", "C04", "C05"),
+                     any(e.name == "field.read" and e.data["key"] == "SK._connect_failed" and lid in e.data["held"] for e in c.trace)),
                     ("socks_connect_under_lock_and_only_once", ("C04", "C08", "C06"), z3.And(z3.BoolVal(lid in c.st.held), F(c, s, "SK._connection") == 0)),
                 ]
             if ev.name == "call:" + INIT:
@@ -345,9 +363,11 @@ def register(reg):
             inside = lid in exc.tag.get("held", [])
             conns = [x for x in c.events("net.connect_tcp") if "result" in x.data]
             inits = c.events("H11.__init__") + c.events("H2.__init__")
+            label = "cancelled" if exc.cls == "Cancelled" else "failed"
+            if not hs:
+                # from the property (C05), as for HTTPConnection: no request leaves the connection unconnected and unmarked
+                out.append((f"{label}_socks_establishment_marks_connection_failed", ("C05", "C07"), z3.Implies(F(c, s, "SK._connection") == 0, F(c, s, "SK._connect_failed"))))
             if not hs and inside and (conns or c.events("net.connect_tcp")):
-                label = "cancelled" if exc.cls == "Cancelled" else "failed"
-                out.append((f"{label}_socks_establishment_marks_connection_failed", ("C05", "C07"), F(c, s, "SK._connect_failed")))
                 if conns and not inits:
                     out.append((f"{label}_socks_establishment_closes_the_stream", ("C06",), stream_settled(c, conns[0].data["result"])))
             return out
